@@ -111,11 +111,11 @@ CONFIGS: Dict[str, Dict[str, List[Dict[str, Any]]]] = {
         ],
     },
     "Knapsack": {
-        "quick": [_c("default"), _c("n10b2sparse", items=10, budget=2.0, reward="sparse"), _c("grid12b2", gen="grid", items=12, budget=2.0), _c("n8b3int", items=8, budget=3), _c("cu_pyreward", custom="pyreward", props=["C01", "C02", "C03"]), _c("dec14b2", gen="decimal", items=14, budget=2.0), _c("dec10b1p3sparse", gen="decimal", items=10, budget=1.3, reward="sparse")],
+        "quick": [_c("default"), _c("n10b2sparse", items=10, budget=2.0, reward="sparse"), _c("grid12b2", gen="grid", items=12, budget=2.0), _c("n8b3int", items=8, budget=3), _c("cu_pyreward", custom="pyreward", props=["C01", "C02", "C03"]), _c("dec14b2", gen="decimal", items=14, budget=2.0), _c("dec10b1p3sparse", gen="decimal", items=10, budget=1.3, reward="sparse"), _c("var12b3", gen="varbudget", items=12, budget=3.0, props=["C01", "C02", "C03", "C04", "C05", "C06", "C09", "C11", "C12"])],
         "thorough": [
             _c("default"), _c("n3b05", items=3, budget=0.5), _c("n10b2sparse", items=10, budget=2.0, reward="sparse"),
             _c("n10b2", items=10, budget=2.0), _c("n50sparse", items=50, budget=12.5, reward="sparse"),
-            _c("grid12b2", gen="grid", items=12, budget=2.0), _c("grid8b1sparse", gen="grid", items=8, budget=1.0, reward="sparse"), _c("n8b3int", items=8, budget=3), _c("cu_pyreward", custom="pyreward", props=["C01", "C02", "C03"]), _c("dec14b2", gen="decimal", items=14, budget=2.0), _c("dec10b1p3sparse", gen="decimal", items=10, budget=1.3, reward="sparse"), _c("dec30b3p15", gen="decimal", items=30, budget=3.15), _c("n300big", items=300, budget=40.0, light=310)
+            _c("grid12b2", gen="grid", items=12, budget=2.0), _c("grid8b1sparse", gen="grid", items=8, budget=1.0, reward="sparse"), _c("n8b3int", items=8, budget=3), _c("cu_pyreward", custom="pyreward", props=["C01", "C02", "C03"]), _c("dec14b2", gen="decimal", items=14, budget=2.0), _c("dec10b1p3sparse", gen="decimal", items=10, budget=1.3, reward="sparse"), _c("dec30b3p15", gen="decimal", items=30, budget=3.15), _c("n300big", items=300, budget=40.0, light=310), _c("var12b3", gen="varbudget", items=12, budget=3.0, props=["C01", "C02", "C03", "C04", "C05", "C06", "C09", "C11", "C12"])
         ],
     },
     "Tetris": {
@@ -313,6 +313,19 @@ def _shared(key: str, make):
     return _SHARED[key][0]
 
 
+_SHARED_OBJS: Dict[Any, Any] = {}
+
+
+def _one(cls):
+    """One instance per class and process: parameter-free reward functions are handed to every environment built in the
+    process (a user typically creates `reward_fn = DenseReward()` once and passes it to the training and the evaluation
+    environment, possibly of different sizes) - a reward object that remembers something about the first environment it
+    served would then mis-serve the next."""
+    if cls not in _SHARED_OBJS:
+        _SHARED_OBJS[cls] = cls()
+    return _SHARED_OBJS[cls]
+
+
 def shared_args_problems() -> List[str]:
     return [f"constructor argument {k!r} was modified in place" for k, (obj, snap) in _SHARED.items() if _snap(obj) != snap]
 
@@ -376,7 +389,7 @@ def build(env: str, cfg: Dict[str, Any]):
         if "grid_size" in c:
             kw["generator"] = RandomWalkGenerator(c["grid_size"], c["moves"])
         if "reward" in c:
-            kw["reward_fn"] = SparseRewardFn() if c["reward"] == "sparse" else DenseRewardFn()
+            kw["reward_fn"] = _one(SparseRewardFn) if c["reward"] == "sparse" else _one(DenseRewardFn)
         return E.SlidingTilePuzzle(**kw)
     if env == "Sudoku":
         from jumanji.environments.logic.sudoku import data as sd
@@ -438,7 +451,7 @@ def build(env: str, cfg: Dict[str, Any]):
             if a in c:
                 kw[b] = c[a]
         if "reward" in c:
-            kw["reward_fn"] = SparseReward() if c["reward"] == "sparse" else DenseReward()
+            kw["reward_fn"] = _one(SparseReward) if c["reward"] == "sparse" else _one(DenseReward)
         return E.BinPack(**kw)
     if env == "FlatPack":
         from jumanji.environments.packing.flat_pack import generator as fg
@@ -453,7 +466,9 @@ def build(env: str, cfg: Dict[str, Any]):
         elif g == "toy_norot":
             kw["generator"] = fg.ToyFlatPackGeneratorNoRotation()
         if "reward" in c:
-            kw["reward_fn"] = BlockDenseReward() if c["reward"] == "block" else CellDenseReward()
+            kw["reward_fn"] = _one(BlockDenseReward) if c["reward"] == "block" else _one(CellDenseReward)
+        elif kw:
+            kw["reward_fn"] = _one(CellDenseReward)  # the documented default, as one object shared by all sizes
         return E.FlatPack(**kw)
     if env == "JobShop":
         from jumanji.environments.packing.job_shop import generator as jg
@@ -472,10 +487,12 @@ def build(env: str, cfg: Dict[str, Any]):
             kw["generator"] = make_knapsack_grid_generator(c["items"], c["budget"])
         elif c.get("gen") == "decimal":
             kw["generator"] = make_knapsack_decimal_generator(c["items"], c["budget"])
+        elif c.get("gen") == "varbudget":
+            kw["generator"] = make_knapsack_varbudget_generator(c["items"], c["budget"])
         elif "items" in c:
             kw["generator"] = RandomGenerator(c["items"], c["budget"])
         if "reward" in c:
-            kw["reward_fn"] = SparseReward() if c["reward"] == "sparse" else DenseReward()
+            kw["reward_fn"] = _one(SparseReward) if c["reward"] == "sparse" else _one(DenseReward)
         return E.Knapsack(**kw)
     if env == "Tetris":
         kw = dict(tl)
@@ -513,7 +530,7 @@ def build(env: str, cfg: Dict[str, Any]):
         elif "nodes" in c:
             kw["generator"] = UniformGenerator(c["nodes"], c["cap"], c["demand"])
         if "reward" in c:
-            kw["reward_fn"] = SparseReward() if c["reward"] == "sparse" else DenseReward()
+            kw["reward_fn"] = _one(SparseReward) if c["reward"] == "sparse" else _one(DenseReward)
         return E.CVRP(**kw)
     if env == "LevelBasedForaging":
         from jumanji.environments.routing.lbf.generator import RandomGenerator
@@ -596,7 +613,7 @@ def build(env: str, cfg: Dict[str, Any]):
         else:
             kw["generator"] = make_sokoban_harness_generator(border=c.get("border", False))
         if "reward" in c:
-            kw["reward_fn"] = SparseReward() if c["reward"] == "sparse" else DenseReward()
+            kw["reward_fn"] = _one(SparseReward) if c["reward"] == "sparse" else _one(DenseReward)
         return E.Sokoban(**kw)
     if env == "TSP":
         from jumanji.environments.routing.tsp.generator import UniformGenerator
@@ -606,7 +623,7 @@ def build(env: str, cfg: Dict[str, Any]):
         if "cities" in c:
             kw["generator"] = UniformGenerator(c["cities"])
         if "reward" in c:
-            kw["reward_fn"] = SparseReward() if c["reward"] == "sparse" else DenseReward()
+            kw["reward_fn"] = _one(SparseReward) if c["reward"] == "sparse" else _one(DenseReward)
         return E.TSP(**kw)
     raise KeyError(env)
 
@@ -807,6 +824,21 @@ def make_cvrp_padded_generator(num_nodes: int, max_capacity: int, max_demand: in
             return state.replace(demands=demands)  # type: ignore
 
     return PaddedGenerator(num_nodes, max_capacity, max_demand)
+
+
+def make_knapsack_varbudget_generator(num_items: int, total_budget: float):
+    """Harness Knapsack generator (subclass of the shipped RandomGenerator) whose instances carry their own budget, between 30 %
+    and 100 % of the nominal `total_budget` ("the maximum budget"): the dynamics must use the budget held in the state."""
+    import jax
+    from jumanji.environments.packing.knapsack.generator import RandomGenerator
+
+    class VarBudgetGenerator(RandomGenerator):
+        def __call__(self, key):
+            state = super().__call__(key)
+            frac = jax.random.uniform(jax.random.fold_in(key, 7), (), minval=0.3, maxval=1.0)
+            return state.replace(remaining_budget=state.remaining_budget * frac)  # type: ignore
+
+    return VarBudgetGenerator(num_items, total_budget)
 
 
 def make_knapsack_decimal_generator(num_items: int, total_budget: float, step: float = 0.05):
